@@ -70,7 +70,7 @@ add('C18', 'exploration', ENUM + ' (all line sequences over a row grammar x deli
     'Readers on every line sequence up to k over a noise/valid row grammar vs the graph of the valid rows alone; compact_timeslot on every subset; keys=True on every clean file.', NOTE)
 add('C19', 'model_checking', 'explicit-state BFS states x every public inherited networkx callable (introspection) x synthesised args; frozen twin; oracle: exception type + observational equality + well-formedness',
     'Every inherited networkx callable in every reachable state with synthesised arguments; every mutator on the frozen twin.', NOTE)
-add('C20', 'exploration', ENUM + ' (all labelled temporal graphs over a small universe x start x delta x alpha x path type); relations: range, key set, invariances, uniform labels, sliding = pointwise',
+add('C20', 'exploration', ENUM + ' (all labelled temporal graphs over small universes — every subset of pairs x instants up to k, every one-contact-per-instant history on 5 nodes x 5 instants, every subset of a two-route template on 6 nodes — x start x delta x alpha x path type); relations: range, key set, invariances, uniform labels, sliding = pointwise; vacuity guard: the path type must change some answer',
     'delta_conformity / sliding_delta_conformity on every labelled temporal graph of the universe: range, node set, label/id renaming invariance, uniform-label value, sliding consistency.', NOTE)
 
 
